@@ -6,6 +6,7 @@ CONSTANT Buggy_SetstateByPosition = TRUE
 CONSTANT Buggy_ArgsBySetOrder = FALSE
 CONSTANT Buggy_DigestSkipsShared = FALSE
 CONSTANT Buggy_CompiledLosesVars = FALSE
+CONSTANT Buggy_OptionsCrossed = FALSE
 CONSTANT Buggy_VarsByName = FALSE
 INIT Init
 NEXT Next
